@@ -490,6 +490,7 @@ func (r *rs) header() {
 	}
 	okd, _ := g.Dominated(size, isNode(ast.Node(atoi)))
 	c.Check("R4.frame", "waitRdbDump/size-after-parse", sv.Pos(), okd, "the size is announced only after it was parsed")
+	r.sizeDelivered(g, body, atoi, size)
 	// no read after the announcement (R1)
 	w6 := g.Path(cfgq.Query{From: size, After: true, Target: isRead})
 	c.Check("R1.header", "waitRdbDump/no-read-after-size", sv.Pos(), w6 == nil, "after the size was announced the header goroutine must not read from the stream again: every further byte belongs to the RDB consumer", w6...)
